@@ -829,7 +829,7 @@ class Sched:
     def __init__(self, ip):
         self.ip = ip; self.cv = threading.Condition(); self.reset()
     def reset(self):
-        self.threads = {0: {'done': False, 'result': None, 'waiting': None}}; self.current = 0; self.abort = None; self.nswitch = 0; self.py = []; self.coop = False
+        self.threads = {0: {'done': False, 'result': None, 'waiting': None}}; self.current = 0; self.abort = None; self.nswitch = 0; self.npreempt = 0; self.py = []; self.coop = False
     def finish(self):
         if len(self.threads) > 1:
             leftover = not all(t['done'] for t in self.threads.values())
@@ -860,9 +860,14 @@ class Sched:
         r = self.runnable()
         if not r:
             self.abort_all(Panic("deadlock: no runnable thread")); raise AbortPath()
+        # context bounding (harness parameter `preemptions`): once the budget of preemptive switches is used up a runnable thread
+        # keeps running at its yield points (it still hands over when it blocks or ends)
+        bound = self.ip.params.get('preemptions')
+        if bound is not None and me in r and self.npreempt >= int(bound): return
         nxt = r[self.ip.choose(len(r), 's')]
         if nxt != me:
             self.nswitch += 1
+            if me in r: self.npreempt += 1
             with self.cv:
                 self.current = nxt; self.cv.notify_all()
                 while self.current != me and not self.abort: self.cv.wait()
